@@ -150,6 +150,16 @@ pub fn gen_map_for(rng: &mut Rng, text: &str, own_name: Option<&str>) -> MapSpec
           name,
         ))
       };
+      // sometimes repeat the previous segment's original position with the
+      // name toggled (named -> unnamed and back): the encoder's "same
+      // original mapping" shortcut has to look at the name too
+      let orig = match (orig, segs.last()) {
+        (Some((_, _, _, n)), Some(Seg { orig: Some((ps, pl, pc, pn)), line, .. })) if *line == li as u32 + 1 && rng.chance(150) => {
+          let toggled = if pn.is_some() { None } else if nnames > 0 { Some(0) } else { n };
+          Some((*ps, *pl, *pc, toggled))
+        }
+        (o, _) => o,
+      };
       segs.push(Seg {
         line: li as u32 + 1,
         col,
@@ -406,9 +416,10 @@ pub fn gen_tree(rng: &mut Rng, cfg: &GenCfg, ids: &mut Ids, depth: u32, budget: 
         _ => 3,
       };
       let children: Vec<TreeSpec> = (0..n).map(|_| gen_tree(rng, cfg, ids, depth - 1, budget)).collect();
-      let how = match rng.below(3) {
+      let how = match rng.below(4) {
         0 => ConcatHow::New,
         1 => ConcatHow::AddLater,
+        2 => ConcatHow::AddObserved,
         _ => ConcatHow::NestedTyped,
       };
       TreeSpec::Concat { children, how }
@@ -430,7 +441,8 @@ pub fn gen_tree(rng: &mut Rng, cfg: &GenCfg, ids: &mut Ids, depth: u32, budget: 
     },
     85..=94 if cfg.allow_user => TreeSpec::User {
       inner: Box::new(gen_tree(rng, cfg, ids, depth - 1, budget)),
-      id: ids.user(),
+      // 30 %: a user source that renumbers its sources / names
+      id: ids.user() | if rng.chance(300) { crate::spec::PERMUTE_BIT } else { 0 },
     },
     95..=99 => TreeSpec::Boxed {
       inner: Box::new(gen_tree(rng, cfg, ids, depth - 1, budget)),
